@@ -1,7 +1,9 @@
 // cvh — correspondence harness: runs the real clvm_tools_rs (chialisp crate) code on the
 // same line protocol the Lean model driver (`modeld`) speaks.
 mod common;
+mod asm;
 mod base;
+mod compile;
 mod conv;
 mod rich;
 
@@ -13,7 +15,10 @@ fn main() {
     }
     let rest: Vec<String> = args[2..].to_vec();
     match args[1].as_str() {
+        "asm" => asm::run_asm(&rest),
+        "dis" => asm::run_dis(&rest),
         "base" => base::run(&rest),
+        "compile" => compile::run(&rest),
         "conv" => conv::run(&rest),
         other => {
             eprintln!("cvh: unknown sub-command {other}");
